@@ -6,3 +6,10 @@ import PorepyVerif.C47.Props
 #print axioms PorepyVerif.C47.csv3d_roundtrip_upto
 #print axioms PorepyVerif.C47.txt_roundtrip_rounded
 #print axioms PorepyVerif.C47.txt_roundtrip
+#print axioms PorepyVerif.C47.polyline_read
+#print axioms PorepyVerif.C47.dihedral_equivalence
+#print axioms PorepyVerif.C47.angSort_dihedral
+#print axioms PorepyVerif.C47.angSort_fixed
+#print axioms PorepyVerif.C47.csv3d_roundtrip_dihedral
+#print axioms PorepyVerif.C47.csv3d_roundtrip_sorted
+#print axioms PorepyVerif.C47.elliptic_transparent
